@@ -666,6 +666,61 @@ def columns_copied(gb):
     return True
 
 
+ARRAY_CODES = {"b": (8, True), "B": (8, False), "h": (16, True), "H": (16, False), "i": (32, True), "I": (32, False),
+               "l": (64, True), "L": (64, False), "q": (64, True), "Q": (64, False)}
+
+
+def _positions_container(gb, over):
+    """The container `_map` keeps column positions in: the assignment whose value is built from
+    `source_columns.index(target) … for target in <over>`.  ["list"] (a list / tuple: any integer), ["bytes"]
+    (`bytes(…)` / `bytearray(…)`: 0..255), ["array", bits, signed] (`array.array(code, …)`)."""
+    fn = gb.func("_map", "GroupBy")
+    found = []
+    for n in ast.walk(fn):
+        if not (isinstance(n, ast.Assign) and len(n.targets) == 1 and isinstance(n.targets[0], ast.Name)):
+            continue
+        comps = [c for c in ast.walk(n.value) if isinstance(c, (ast.GeneratorExp, ast.ListComp))
+                 and len(c.generators) == 1 and _u(c.generators[0].iter) == over]
+        if not comps:
+            continue
+        comp = comps[0]
+        if not any(isinstance(x, ast.Call) and isinstance(x.func, ast.Attribute) and x.func.attr == "index" for x in ast.walk(comp.elt)):
+            raise Shape("positions of %s are not found with .index()" % over)
+        v = n.value
+        if v is comp and isinstance(v, ast.ListComp):
+            found.append(["list"])
+        elif isinstance(v, ast.Call) and not v.keywords and len(v.args) == 1 and v.args[0] is comp \
+                and isinstance(v.func, ast.Name) and v.func.id in ("list", "tuple"):
+            found.append(["list"])
+        elif isinstance(v, ast.Call) and not v.keywords and len(v.args) == 1 and v.args[0] is comp \
+                and isinstance(v.func, ast.Name) and v.func.id in ("bytes", "bytearray"):
+            found.append(["bytes"])
+        elif isinstance(v, ast.Call) and not v.keywords and len(v.args) == 2 and v.args[1] is comp \
+                and _u(v.func) in ("array.array", "array") and isinstance(v.args[0], ast.Constant) \
+                and v.args[0].value in ARRAY_CODES:
+            bits, signed = ARRAY_CODES[v.args[0].value]
+            found.append(["array", bits, signed])
+        else:
+            raise Shape("positions container %s" % _u(v)[:50])
+    if len(found) != 1:
+        raise Shape("%d assignments hold the positions of %s" % (len(found), over))
+    return found[0]
+
+
+def key_positions(gb):
+    return _positions_container(gb, "self._columns")
+
+
+def value_positions(gb):
+    return _positions_container(gb, "collect_columns")
+
+
+def lean_container(c):
+    if c[0] == "array":
+        return "(.array %d %s)" % (c[1], lean_bool(c[2]))
+    return "." + c[0]
+
+
 # ----------------------------------------------------------------------------- Lean text
 
 PINNED = {
@@ -689,6 +744,8 @@ PINNED = {
     "fresh_value_map": True,
     "registry_per_object": True,
     "columns_copied": True,
+    "key_positions": ["array", 32, True],
+    "value_positions": ["list"],
 }
 
 
@@ -738,6 +795,9 @@ def generate(o):
 
     cc = o.item("group_by.__init__.columns_copied", lambda: columns_copied(gb), P["columns_copied"])
 
+    kp = o.item("group_by._map.key_positions", lambda: key_positions(gb), P["key_positions"])
+    vp = o.item("group_by._map.value_positions", lambda: value_positions(gb), P["value_positions"])
+
     def part(p):
         return ".lit %s" % lean_str(p[1]) if p[0] == "lit" else "." + p[0]
 
@@ -774,5 +834,9 @@ def generate(o):
     t += "def registryPerObject : Bool := %s\n" % lean_bool(rpo)
     t += "/-- `GroupBy.__init__`: `self._columns` is a new object (`tuple(columns)` / `[columns]`), never the caller's list -/\n"
     t += "def columnsCopied : Bool := %s\n" % lean_bool(cc)
+    t += "/-- `_map`: the container that holds the positions of the key columns (`group_column_indicies = …`) -/\n"
+    t += "def keyPositions : PosContainer := %s\n" % lean_container(kp)
+    t += "/-- `_map`: the container that holds the positions of the requested columns (`collect_column_indicies = …`) -/\n"
+    t += "def valuePositions : PosContainer := %s\n" % lean_container(vp)
     t += "end Gen.GroupByCode\n"
     o.files["GroupByCode.lean"] = t
